@@ -1,4 +1,5 @@
 pub mod c02;
+pub mod c03;
 pub mod c06;
 pub mod c07;
 pub mod c08;
@@ -12,6 +13,7 @@ pub mod c16;
 pub mod c17;
 pub mod c18;
 pub mod c19;
+pub mod c20;
 
 /// re-execute a recorded replay file natively; exit code 1 if the violation reproduces, 0 if not
 pub fn replay(_prop: &str, _file: &str) -> i32 {
